@@ -99,7 +99,7 @@ impl UnixListener {
     }
 
     /// Close the socket. If the returned future is dropped before polling, the
-    /// socket won't be closed.
+    /// socket is dropped like any other handle.
     ///
     /// See [`TcpStream::close`] for more details.
     ///
@@ -241,7 +241,7 @@ impl UnixStream {
     }
 
     /// Close the socket. If the returned future is dropped before polling, the
-    /// socket won't be closed.
+    /// socket is dropped like any other handle.
     ///
     /// See [`TcpStream::close`] for more details.
     ///
